@@ -51,18 +51,25 @@ func (k *sink) Fail(kind, key, what string, replay any) {
 func (k *sink) Stat(n string)   { k.mu.Lock(); k.c.Stat(n); k.mu.Unlock() }
 func (k *sink) Eval(key string) { k.mu.Lock(); k.c.Eval(key); k.mu.Unlock() }
 func (k *sink) Sample(x any)    { k.mu.Lock(); k.c.Sample(x); k.mu.Unlock() }
-func (k *sink) Compare(r *StoreRun) (string, string) {
+func (k *sink) Compare(r *StoreRun, fill bool) (string, string) {
 	k.mu.Lock()
 	defer k.mu.Unlock()
 	k.c.Res.ModelCases++
+	if fill {
+		return r.CompareWithModelMode(k.c.Model(), "C17", "runfill")
+	}
 	return r.CompareWithModel(k.c.Model(), "C17")
 }
 
 const c17Workers = 4
 
 type c17Case struct {
-	Hist []StoreOp `json:"hist"`
-	K    int       `json:"k"` // crash at the k-th storage operation of the last operation
+	Hist    []StoreOp `json:"hist"`
+	K       int       `json:"k"`                  // crash at the k-th storage operation of the last operation
+	Fill    bool      `json:"fill,omitempty"`     // create-then-fill puts: creates and write chunks are operations of their own
+	PartNum int       `json:"part_num,omitempty"` // when the crashing operation is a write chunk: this fraction of it is still written
+	PartDen int       `json:"part_den,omitempty"`
+	K2      int       `json:"k2,omitempty"` // double crash: the follow-up workload crashes at its K2-th storage operation
 }
 
 // journalBehind reports the journals (relative directory) whose HEAD is behind the highest
@@ -100,9 +107,9 @@ func journalBehind(e *StoreEngine) []string {
 
 // followUp builds the fixed follow-up workload from the recovered visible state.  Labels and
 // names are taken from a range no history uses.
-func followUp(obs []StorePoolState, poolLbl map[string]int) []StoreOp {
+func followUp(obs []StorePoolState, poolLbl map[string]int, stage int) []StoreOp {
 	var ops []StoreOp
-	obj, lbl := 900, 900
+	obj, lbl := 900+40*stage, 900+40*stage
 	for _, p := range obs {
 		pl, ok := poolLbl[p.ID]
 		if !ok || !p.Readable {
@@ -114,34 +121,84 @@ func followUp(obs []StorePoolState, poolLbl map[string]int) []StoreOp {
 			obj++
 			lbl += 2
 		}
-		ops = append(ops, StoreOp{Kind: "createBranch", Pool: pl, Name: 77, Parent: 0})
-		ops = append(ops, StoreOp{Kind: "removeBranch", Pool: pl, Name: 77})
+		ops = append(ops, StoreOp{Kind: "createBranch", Pool: pl, Name: 77 + stage, Parent: 0})
+		ops = append(ops, StoreOp{Kind: "removeBranch", Pool: pl, Name: 77 + stage})
 	}
-	ops = append(ops, StoreOp{Kind: "createPool", Lbl: 990, Name: 90})
-	ops = append(ops, StoreOp{Kind: "load", Pool: 990, Branch: 0, Obj: obj, Lbl: lbl})
-	ops = append(ops, StoreOp{Kind: "renamePool", Pool: 990, Name: 91})
-	ops = append(ops, StoreOp{Kind: "removePool", Pool: 990})
+	ops = append(ops, StoreOp{Kind: "createPool", Lbl: 990 + stage, Name: 90 + 2*stage})
+	ops = append(ops, StoreOp{Kind: "load", Pool: 990 + stage, Branch: 0, Obj: obj, Lbl: lbl})
+	ops = append(ops, StoreOp{Kind: "renamePool", Pool: 990 + stage, Name: 91 + 2*stage})
+	ops = append(ops, StoreOp{Kind: "removePool", Pool: 990 + stage})
 	return ops
 }
 
 // opCount runs the history without a crash and returns the number of storage operations of
 // its last operation.
 func opCount(hist []StoreOp) (int, error) {
+	n, _, err := opList(hist, false)
+	return n, err
+}
+
+// opList also returns the storage operations of the last operation in order (op, path).
+func opList(hist []StoreOp, fill bool) (int, []StoreEvent, error) {
 	e := NewStoreEngine()
+	e.Atomic = !fill
 	r, err := NewStoreRun(e, [][]StoreOp{hist[:len(hist)-1]})
 	if err != nil {
-		return 0, err
+		return 0, nil, err
 	}
 	r.RunSequential(0)
+	n0 := e.TraceLen()
 	r.Append(0, hist[len(hist)-1])
 	e.CrashAt(0, 1<<30, 0, 0)
 	r.RunSequential(0)
-	return e.Ops(0), nil
+	var evs []StoreEvent
+	for _, ev := range e.TraceFrom(n0) {
+		if ev.Client == 0 {
+			evs = append(evs, ev)
+		}
+	}
+	return e.Ops(0), evs, nil
+}
+
+// headFiles inspects the HEAD file of every journal: empty (created / truncated and never
+// filled), or holding a number more than one behind the highest entry (a prefix of its digits).
+func headFiles(e *StoreEngine) (empty []string, farBehind []string) {
+	maxEnt := map[string]int{}
+	heads := map[string]string{}
+	for _, p := range e.Paths() {
+		i := strings.LastIndexByte(p, '/')
+		if i < 0 {
+			continue
+		}
+		dir, f := p[:i], p[i+1:]
+		if dir != "pools" && !strings.HasSuffix(dir, "/branches") {
+			continue
+		}
+		if f == "HEAD" {
+			b, _ := e.File(p)
+			heads[dir] = string(b)
+		} else if strings.HasSuffix(f, ".zng") && f != "snap.zng" {
+			if n, err := strconv.Atoi(strings.TrimSuffix(f, ".zng")); err == nil && n > maxEnt[dir] {
+				maxEnt[dir] = n
+			}
+		}
+	}
+	for d, h := range heads {
+		if h == "" {
+			empty = append(empty, d)
+			continue
+		}
+		if n, err := strconv.Atoi(h); err == nil && n+1 < maxEnt[d] {
+			farBehind = append(farBehind, fmt.Sprintf("%s (HEAD=%d, last entry %d)", d, n, maxEnt[d]))
+		}
+	}
+	return
 }
 
 func c17Run(c *sink, cs *c17Case) {
 	hist := cs.Hist
 	e := NewStoreEngine()
+	e.Atomic = !cs.Fill
 	r, err := NewStoreRun(e, [][]StoreOp{hist[:len(hist)-1]})
 	if err != nil {
 		c.Fail("harness", "C17:harness:setup", err.Error(), cs)
@@ -150,123 +207,169 @@ func c17Run(c *sink, cs *c17Case) {
 	r.RunSequential(0)
 	last := hist[len(hist)-1]
 	r.Append(0, last)
-	e.CrashAt(0, cs.K, 0, 0)
+	e.CrashAt(0, cs.K, cs.PartNum, cs.PartDen)
 	r.RunSequential(0)
 	if len(r.Panicked) > 0 {
 		c.Fail("panic", "C17:panic:"+last.Kind, r.Panicked[0], cs)
 		return
 	}
-	crashed := e.Crashed(0)
-	if crashed {
+	if e.Crashed(0) {
 		c.Stat("crashed-in:" + last.Kind)
 	} else {
 		c.Stat("no-crash(k>ops)")
 	}
-	// ---- recovery: cold handle
-	obs, err := r.Observe()
-	if err != nil {
-		c.Fail("oracle", "C17:readable:lake", fmt.Sprintf("after a crash at storage operation %d of %s the lake cannot be opened/listed: %v", cs.K, last, err), cs)
-		return
-	}
-	for _, p := range obs {
-		if !p.Readable {
-			c.Fail("oracle", "C17:readable:pool", fmt.Sprintf("after a crash at storage operation %d of %s pool %s is listed but unreadable: %s", cs.K, last, p.Name, p.Err), cs)
-			return
+	desc := fmt.Sprintf("a crash at storage operation %d of %s", cs.K, last)
+	if cs.Fill {
+		desc += " (create-then-fill puts"
+		if cs.PartDen > 0 {
+			desc += fmt.Sprintf(", %d/%d of the chunk written", cs.PartNum, cs.PartDen)
 		}
-		for _, b := range p.Branches {
-			if !b.Readable {
-				c.Fail("oracle", "C17:readable:branch", fmt.Sprintf("after a crash at storage operation %d of %s branch %s/%s is unreadable: %s", cs.K, last, p.Name, b.Name, b.Err), cs)
+		desc += ")"
+	}
+	compareModel := true
+	for stage := 0; ; stage++ {
+		emptyHeads, farBehind := headFiles(e)
+		if len(emptyHeads)+len(farBehind) > 0 {
+			compareModel = false // readID's give-up point is timing dependent; the model retries forever
+		}
+		// ---- recovery: cold handle
+		obs, err := r.Observe()
+		if err != nil {
+			if len(emptyHeads) > 0 {
+				c.Fail("oracle", "C17:fill:head-empty", fmt.Sprintf("%s left %v/HEAD created and empty; the lake cannot be opened/listed any more: %v", desc, emptyHeads, err), cs)
 				return
 			}
+			c.Fail("oracle", "C17:readable:lake", fmt.Sprintf("after %s the lake cannot be opened/listed: %v", desc, err), cs)
+			return
 		}
-	}
-	pl, cm := r.StoreIDStrings()
-	why, _ := StoreLinearizable(r.History, obs, pl, cm)
-	if why != "" {
-		key := "C17:atomic:" + last.Kind
-		for _, h := range r.History[:len(r.History)-1] {
-			_ = h
-		}
-		c.Fail("oracle", key, fmt.Sprintf("after a crash at storage operation %d of %s the recovered state is neither the state before nor after it (or an earlier acknowledged operation is damaged): %s", cs.K, last, why), cs)
-		return
-	}
-	// ---- follow-up workload on a cold handle
-	poolLbl := map[string]int{}
-	for l, id := range pl {
-		poolLbl[id] = l
-	}
-	// a pool created by the crashed operation itself has no label the harness knows; register it
-	for _, p := range obs {
-		if _, ok := poolLbl[p.ID]; !ok && last.Kind == "createPool" && p.Key == last.Name {
-			poolLbl[p.ID] = last.Lbl
-			if id, err := ParseKSUID(p.ID); err == nil {
-				r.Pools[last.Lbl] = id
+		for _, p := range obs {
+			if !p.Readable {
+				if len(emptyHeads) > 0 {
+					c.Fail("oracle", "C17:fill:head-empty", fmt.Sprintf("%s left %v/HEAD created and empty; pool %s is listed but unreadable: %s", desc, emptyHeads, p.Name, p.Err), cs)
+					return
+				}
+				c.Fail("oracle", "C17:readable:pool", fmt.Sprintf("after %s pool %s is listed but unreadable: %s", desc, p.Name, p.Err), cs)
+				return
+			}
+			for _, b := range p.Branches {
+				if !b.Readable {
+					c.Fail("oracle", "C17:readable:branch", fmt.Sprintf("after %s branch %s/%s is unreadable: %s", desc, p.Name, b.Name, b.Err), cs)
+					return
+				}
 			}
 		}
-	}
-	behind := journalBehind(e)
-	fu := followUp(obs, poolLbl)
-	rc, err := r.AddClient(fu)
-	if err != nil {
-		c.Fail("oracle", "C17:readable:lake", "cannot reopen the lake: "+err.Error(), cs)
-		return
-	}
-	r.RunSequential(rc)
-	live := true
-	for _, h := range r.History {
-		if h.Client != rc {
+		pl, cm := r.StoreIDStrings()
+		why, _ := StoreLinearizable(r.History, obs, pl, cm)
+		if os.Getenv("C17_DEBUG") != "" {
+			fmt.Fprintf(os.Stderr, "stage %d: empty=%v far=%v why=%q obs=%+v\n", stage, emptyHeads, farBehind, why, obs)
+		}
+		if why != "" {
+			if len(farBehind) > 0 {
+				c.Fail("oracle", "C17:fill:head-prefix", fmt.Sprintf("%s left a prefix of the digits in HEAD of %v; acknowledged operations are no longer visible: %s", desc, farBehind, why), cs)
+				return
+			}
+			c.Fail("oracle", "C17:atomic:"+last.Kind, fmt.Sprintf("after %s the recovered state is neither the state before nor after the interrupted operation (or an earlier acknowledged operation is damaged): %s", desc, why), cs)
+			return
+		}
+		// ---- follow-up workload on a cold handle
+		poolLbl := map[string]int{}
+		for l, id := range pl {
+			poolLbl[id] = l
+		}
+		// a pool created by a crashed operation has no label the harness knows; register it
+		for _, p := range obs {
+			if _, ok := poolLbl[p.ID]; ok {
+				continue
+			}
+			for _, h := range r.History {
+				if h.Res == "" && h.Op.Kind == "createPool" && p.Key == h.Op.Name {
+					poolLbl[p.ID] = h.Op.Lbl
+					if id, err := ParseKSUID(p.ID); err == nil {
+						r.Pools[h.Op.Lbl] = id
+					}
+				}
+			}
+		}
+		behind := journalBehind(e)
+		fu := followUp(obs, poolLbl, stage)
+		rc, err := r.AddClient(fu)
+		if err != nil {
+			c.Fail("oracle", "C17:readable:lake", "cannot reopen the lake: "+err.Error(), cs)
+			return
+		}
+		if stage == 0 && cs.K2 > 0 {
+			e.CrashAt(rc, cs.K2, 0, 0)
+		}
+		r.RunSequential(rc)
+		if stage == 0 && cs.K2 > 0 && e.Crashed(rc) {
+			c.Stat("double-crash")
+			desc += fmt.Sprintf(", recovery, and a second crash at storage operation %d of the follow-up workload", cs.K2)
 			continue
 		}
-		if h.Res == "ok" {
-			continue
-		}
-		live = false
-		if h.Res == "panic" {
-			c.Fail("panic", "C17:panic:followup:"+h.Op.Kind, h.Err, cs)
+		live := true
+		for _, h := range r.History {
+			if h.Client != rc || h.Res == "ok" {
+				continue
+			}
+			live = false
+			if h.Res == "panic" {
+				c.Fail("panic", "C17:panic:followup:"+h.Op.Kind, h.Err, cs)
+				break
+			}
+			if h.Res == "unresolved" {
+				continue // follow-up on a pool whose creation failed before
+			}
+			if h.Res == "retries" && len(behind) > 0 {
+				c.Fail("oracle", "C17:live:head-behind-journal-end",
+					fmt.Sprintf("%s left HEAD of %v one behind the journal end; follow-up %s then fails: %s", desc, behind, h.Op, h.Err), cs)
+				c.Stat("wedged-after:" + last.Kind)
+			} else {
+				c.Fail("oracle", "C17:live:"+h.Op.Kind+":"+strings.SplitN(h.Res, ":", 2)[0],
+					fmt.Sprintf("after %s follow-up %s fails: %s", desc, h.Op, h.Err), cs)
+			}
 			break
 		}
-		if h.Res == "unresolved" {
-			continue // follow-up on a pool whose creation failed before
+		if live {
+			c.Stat("live-after:" + last.Kind)
+			if len(behind) > 0 {
+				c.Stat("head-behind-but-live")
+			}
 		}
-		if h.Res == "retries" && len(behind) > 0 {
-			c.Fail("oracle", "C17:live:head-behind-journal-end",
-				fmt.Sprintf("crash at storage operation %d of %s left HEAD of %v one behind the journal end; follow-up %s then fails: %s", cs.K, last, behind, h.Op, h.Err), cs)
-			c.Stat("wedged-after:" + last.Kind)
-		} else {
-			c.Fail("oracle", "C17:live:"+h.Op.Kind+":"+strings.SplitN(h.Res, ":", 2)[0],
-				fmt.Sprintf("after a crash at storage operation %d of %s follow-up %s fails: %s", cs.K, last, h.Op, h.Err), cs)
+		// the lake must still be readable and linearizable after the follow-up
+		obs2, err := r.Observe()
+		if err != nil {
+			c.Fail("oracle", "C17:readable:lake", "lake unreadable after the follow-up workload: "+err.Error(), cs)
+			return
+		}
+		pl, cm = r.StoreIDStrings()
+		if why, _ := StoreLinearizable(r.History, obs2, pl, cm); why != "" {
+			if os.Getenv("C17_DEBUG") != "" {
+				for _, h := range r.History {
+					fmt.Fprintf(os.Stderr, "%+v\n", *h)
+				}
+				fmt.Fprintf(os.Stderr, "%+v\n", obs2)
+			}
+			if len(farBehind) > 0 {
+				c.Fail("oracle", "C17:fill:head-prefix", fmt.Sprintf("%s left a prefix of the digits in HEAD of %v; after the follow-up workload acknowledged operations are no longer visible: %s", desc, farBehind, why), cs)
+				return
+			}
+			c.Fail("oracle", "C17:atomic:followup", "state after "+desc+" + follow-up is not explained by any order of the operations: "+why, cs)
+			return
+		}
+		if d := r.CompareHandleWithCold(rc); d != "" {
+			c.Fail("oracle", "C17:warm:followup", "after "+desc+" + follow-up: "+d, cs)
+			return
 		}
 		break
-	}
-	if live {
-		c.Stat("live-after:" + last.Kind)
-		if len(behind) > 0 {
-			c.Stat("head-behind-but-live")
-		}
-	}
-	// the lake must still be readable and linearizable after the follow-up
-	obs2, err := r.Observe()
-	if err != nil {
-		c.Fail("oracle", "C17:readable:lake", "lake unreadable after the follow-up workload: "+err.Error(), cs)
-		return
-	}
-	pl, cm = r.StoreIDStrings()
-	if why, _ := StoreLinearizable(r.History, obs2, pl, cm); why != "" {
-		if os.Getenv("C17_DEBUG") != "" {
-			for _, h := range r.History {
-				fmt.Fprintf(os.Stderr, "%+v\n", *h)
-			}
-			fmt.Fprintf(os.Stderr, "%+v\n", obs2)
-		}
-		c.Fail("oracle", "C17:atomic:followup", "state after crash + follow-up is not explained by any order of the operations: "+why, cs)
-		return
 	}
 	for k := range r.TraceCounts() {
 		c.Stat("runs-with:" + k)
 	}
 	// ---- the model
-	if diff, req := c.Compare(r); diff != "" {
-		c.Fail("correspondence", "C17:model:"+strings.SplitN(diff, "[", 2)[0], "model and code disagree: "+diff, map[string]any{"case": cs, "model_request": req})
+	if compareModel {
+		if diff, req := c.Compare(r, cs.Fill); diff != "" {
+			c.Fail("correspondence", "C17:model:"+strings.SplitN(diff, "[", 2)[0], "model and code disagree: "+diff, map[string]any{"case": cs, "model_request": req})
+		}
 	}
 }
 
@@ -380,7 +483,7 @@ func runC17(c0 *Ctx) {
 	}
 	if c0.Want("crash") {
 		nh := c0.N(30, 1200)
-		deadline := time.Now().Add(time.Duration(c0.N(55, 700)) * time.Second)
+		deadline := time.Now().Add(time.Duration(c0.N(40, 700)) * time.Second)
 		type job struct {
 			hist []StoreOp
 			k    int
@@ -419,6 +522,98 @@ func runC17(c0 *Ctx) {
 			c17Run(c, cs)
 			b, _ := json.Marshal(cs)
 			c.Eval(string(b))
+		})
+	}
+	if c0.Want("fillcrash") {
+		// create-then-fill puts (local file engine): every create and every write chunk is a crash
+		// point; a chunk can also be cut in the middle (a prefix is left behind)
+		A := []StoreOp{{Kind: "createPool", Lbl: 1, Name: 1}, {Kind: "load", Pool: 1, Branch: 0, Obj: 1, Lbl: 101}}
+		B := append(append([]StoreOp(nil), A...), StoreOp{Kind: "delete", Pool: 1, Branch: 0, Objs: []int{1}, Lbl: 102})
+		C := []StoreOp{{Kind: "createPool", Lbl: 1, Name: 1}, {Kind: "createPool", Lbl: 2, Name: 2}}
+		D := append(append([]StoreOp(nil), A...), StoreOp{Kind: "removePool", Pool: 1})
+		long := []StoreOp{{Kind: "createPool", Lbl: 1, Name: 1}}
+		for i := 0; i < 11; i++ {
+			long = append(long, StoreOp{Kind: "load", Pool: 1, Branch: 0, Obj: 1 + i, Lbl: 101 + i})
+		}
+		hists := [][]StoreOp{A, C}
+		if c0.Thorough() {
+			hists = [][]StoreOp{A, B, C, D}
+		}
+		slowBudget := c0.N(1, 4) // a HEAD left empty makes every reader retry for seconds (readID backoff)
+		var jobs []*c17Case
+		for _, h := range hists {
+			n, evs, err := opList(h, true)
+			if err != nil {
+				c.Fail("harness", "C17:harness:count", err.Error(), h)
+				continue
+			}
+			for k := 1; k <= n; k++ {
+				ev := evs[k-1]
+				isHead := strings.HasSuffix(ev.Path, "/HEAD")
+				if ev.Op == "write" && isHead {
+					if slowBudget > 0 {
+						slowBudget--
+						jobs = append(jobs, &c17Case{Hist: h, K: k, Fill: true})
+					} else {
+						c.Stat("fillcrash:head-empty-case-skipped(slow)")
+					}
+					continue
+				}
+				jobs = append(jobs, &c17Case{Hist: h, K: k, Fill: true})
+				if ev.Op == "write" && len(ev.Data) >= 2 {
+					jobs = append(jobs, &c17Case{Hist: h, K: k, Fill: true, PartNum: 1, PartDen: 2})
+				}
+			}
+		}
+		// a two-digit HEAD cut after its first digit
+		if n, evs, err := opList(long, true); err == nil {
+			for k := n; k >= 1; k-- {
+				if evs[k-1].Op == "write" && strings.HasSuffix(evs[k-1].Path, "/branches/HEAD") {
+					jobs = append(jobs, &c17Case{Hist: long, K: k, Fill: true, PartNum: 1, PartDen: 2})
+					break
+				}
+			}
+		}
+		ParallelDo(len(jobs), c17Workers, func(i int) {
+			c17Run(c, jobs[i])
+			b, _ := json.Marshal(jobs[i])
+			c.Eval(string(b))
+			c.Stat("fillcrash:runs")
+		})
+	}
+	if c0.Want("double") {
+		// double crashes: the recovery's follow-up workload crashes too
+		A := []StoreOp{{Kind: "createPool", Lbl: 1, Name: 1}, {Kind: "load", Pool: 1, Branch: 0, Obj: 1, Lbl: 101}}
+		B := append(append([]StoreOp(nil), A...), StoreOp{Kind: "delete", Pool: 1, Branch: 0, Objs: []int{1}, Lbl: 102})
+		hists := [][]StoreOp{A}
+		if c0.Thorough() {
+			hists = [][]StoreOp{A, B}
+		}
+		var jobs []*c17Case
+		for _, h := range hists {
+			n, err := opCount(h)
+			if err != nil {
+				continue
+			}
+			for k := 1; k <= n; k++ {
+				for _, k2 := range []int{2, 5, 9, 14, 20, 27, 35, 44, 54, 65} {
+					if !c0.Thorough() && (k+k2)%3 != 0 {
+						continue
+					}
+					jobs = append(jobs, &c17Case{Hist: h, K: k, K2: k2})
+				}
+			}
+		}
+		deadline := time.Now().Add(time.Duration(c0.N(20, 300)) * time.Second)
+		ParallelDo(len(jobs), c17Workers, func(i int) {
+			if !time.Now().Before(deadline) {
+				c.Stat("double:skipped-deadline")
+				return
+			}
+			c17Run(c, jobs[i])
+			b, _ := json.Marshal(jobs[i])
+			c.Eval(string(b))
+			c.Stat("double:runs")
 		})
 	}
 	if c0.Want("init") {
